@@ -203,11 +203,11 @@ func (s *ManagedServer) AddCredential(username string, uPSK []byte) error {
 	}
 	s.cachedCredMap[username] = uc
 	s.cachedUserLookupMap[uc.uPSKHash] = c
-	s.mu.Unlock()
-	s.enqueueSave()
 	s.updateProdULM(func(ulm ss2022.UserLookupMap) {
 		ulm[uc.uPSKHash] = c
 	})
+	s.mu.Unlock()
+	s.enqueueSave()
 	return nil
 }
 
@@ -241,12 +241,12 @@ func (s *ManagedServer) UpdateCredential(username string, uPSK []byte) error {
 	uc.uPSKHash = uPSKHash
 	delete(s.cachedUserLookupMap, oldUPSKHash)
 	s.cachedUserLookupMap[uc.uPSKHash] = c
-	s.mu.Unlock()
-	s.enqueueSave()
 	s.updateProdULM(func(ulm ss2022.UserLookupMap) {
 		delete(ulm, oldUPSKHash)
 		ulm[uc.uPSKHash] = c
 	})
+	s.mu.Unlock()
+	s.enqueueSave()
 	return nil
 }
 
@@ -260,24 +260,27 @@ func (s *ManagedServer) DeleteCredential(username string) error {
 	}
 	delete(s.cachedCredMap, username)
 	delete(s.cachedUserLookupMap, uc.uPSKHash)
-	s.mu.Unlock()
-	s.enqueueSave()
 	s.updateProdULM(func(ulm ss2022.UserLookupMap) {
 		delete(ulm, uc.uPSKHash)
 	})
+	s.mu.Unlock()
+	s.enqueueSave()
 	return nil
 }
 
 // LoadFromFile loads credentials from the configured credential file
 // and applies the changes to the associated credential stores.
 func (s *ManagedServer) LoadFromFile() error {
+	// Read the file with the lock held, so that the content is not compared
+	// against a cachedContent written by a save that happened after the read.
+	s.mu.Lock()
 	content, close, err := mmap.ReadFile[string](s.path)
 	if err != nil {
+		s.mu.Unlock()
 		return err
 	}
 	defer close()
 
-	s.mu.Lock()
 	// Skip if the file content is unchanged.
 	if content == s.cachedContent {
 		s.mu.Unlock()
@@ -320,14 +323,13 @@ func (s *ManagedServer) LoadFromFile() error {
 	s.cachedContent = strings.Clone(content)
 	s.cachedUserLookupMap = userLookupMap
 	s.cachedCredMap = credMap
-	s.mu.Unlock()
-
 	if s.tcp != nil {
 		s.tcp.ReplaceUserLookupMap(maps.Clone(s.cachedUserLookupMap))
 	}
 	if s.udp != nil {
 		s.udp.ReplaceUserLookupMap(maps.Clone(s.cachedUserLookupMap))
 	}
+	s.mu.Unlock()
 
 	return nil
 }
